@@ -158,8 +158,15 @@ func c19R2(c *Ctx) {
 				}
 				st := e.Instr.(*ssa.Store)
 				fa := st.Addr.(*ssa.FieldAddr)
-				if p, ok := fa.X.Type().(*types.Pointer); !ok || !isNamed(p.Elem(), ct.Named) {
+				if p, ok := fa.X.Type().(*types.Pointer); !ok || !(isNamed(p.Elem(), ct.Named) || ct.Base != nil && types.Identical(p.Elem(), ct.Base.Type())) {
 					continue
+				} else if !isNamed(p.Elem(), ct.Named) && len(fn.Params) > 0 {
+					// a base struct shared by both containers: the store belongs to the container whose method (or whose base's method) it is in
+					if rp, ok := fn.Params[0].Type().(*types.Pointer); ok {
+						if rn, ok := rp.Elem().(*types.Named); ok && c.Inv().ContOf(rn) != nil && c.Inv().ContOf(rn) != ct {
+							continue
+						}
+					}
 				}
 				if k, isConst := st.Val.(*ssa.Const); isConst && k.IsNil() {
 					if _, lit := fa.X.(*ssa.Alloc); lit {
@@ -173,7 +180,17 @@ func c19R2(c *Ctx) {
 					continue
 				}
 				par, isParam := st.Val.(*ssa.Parameter)
-				if isParam && len(fn.Params) == 2 && par == fn.Params[1] && fa.X == fn.Params[0] && len(a.eff[fn]) == 1 && len(fn.Blocks) == 1 {
+				onRecv := len(fn.Params) > 0 && fa.X == fn.Params[0]
+				if inner, ok := fa.X.(*ssa.FieldAddr); ok && len(fn.Params) > 0 && inner.X == fn.Params[0] && ct.Base != nil {
+					// recv.base.self = ptr: the ego field in the embedded base struct, written by the container's own Init
+					if bf := a.structField(inner.X, inner.Field); bf != nil && sameField(bf, ct.Base) {
+						onRecv = true
+					}
+				}
+				if mi, ok := st.Val.(*ssa.ChangeInterface); ok && !isParam {
+					par, isParam = mi.X.(*ssa.Parameter) // List handed on as the common interface the base keeps it under
+				}
+				if isParam && len(fn.Params) == 2 && par == fn.Params[1] && onRecv && len(a.eff[fn]) == 1 && len(fn.Blocks) == 1 {
 					ob.Ok("unconditionally (single basic block) stores its only argument into the receiver's ptr and has no other effect")
 				} else if isParam && len(fn.Blocks) != 1 {
 					ob.Fail("registration of the ego is conditional (%d basic blocks): some Init(ptr) call may leave a previous ptr in place, so a second-level derived type is not registered", len(fn.Blocks))
@@ -263,6 +280,46 @@ func selfRegistered(st *ssa.Store, fa *ssa.FieldAddr) *ssa.Alloc {
 	return al
 }
 
+// isRegistration: fn's only effect is the store of its argument into the ego field of its receiver — directly, or by handing both on
+// to a helper of the embedded base that is such a function (`func (l *list) Init(p List) { l.bind(p) }`).
+func isRegistration(a *E3, fn *ssa.Function, depth int) bool {
+	effs := a.eff[fn]
+	if len(effs) != 1 {
+		return false
+	}
+	if effs[0].Kind == "store.ptr" {
+		return true
+	}
+	if depth == 0 || !strings.HasPrefix(effs[0].Kind, "call:") || len(fn.Params) != 2 || len(fn.Blocks) != 1 {
+		return false
+	}
+	call, ok := effs[0].Instr.(*ssa.Call)
+	if !ok {
+		return false
+	}
+	args := callArgs(call.Common())
+	if len(args) != 2 {
+		return false
+	}
+	recv := args[0]
+	if fa, ok := recv.(*ssa.FieldAddr); ok {
+		recv = fa.X // &recv.base
+	}
+	val := args[1]
+	if ci, ok := val.(*ssa.ChangeInterface); ok {
+		val = ci.X
+	}
+	if recv != ssa.Value(fn.Params[0]) || val != ssa.Value(fn.Params[1]) {
+		return false
+	}
+	for _, cal := range a.Callees(call.Common()) {
+		if !isRegistration(a, cal, depth-1) {
+			return false
+		}
+	}
+	return len(a.Callees(call.Common())) > 0
+}
+
 func registeredWithInit(a *E3, root *ssa.Function, al *ssa.Alloc) bool {
 	derives := func(v ssa.Value) bool {
 		seen := map[ssa.Value]bool{}
@@ -282,6 +339,12 @@ func registeredWithInit(a *E3, root *ssa.Function, al *ssa.Alloc) bool {
 				return rec(x.X)
 			case *ssa.TypeAssert:
 				return rec(x.X)
+			case *ssa.FieldAddr:
+				// &alloc.base: the receiver of Init when it is promoted from the embedded base struct that holds the ego field
+				if a.isEgoHolderPtr(x.Type()) && !a.isContainerPtr(x.Type()) {
+					return rec(x.X)
+				}
+				return false
 			case *ssa.Phi:
 				for _, e := range x.Edges {
 					if !rec(e) {
@@ -341,8 +404,7 @@ func registeredWithInit(a *E3, root *ssa.Function, al *ssa.Alloc) bool {
 				}
 				isInit := false
 				for _, cal := range a.Callees(cc) {
-					effs := a.eff[cal]
-					if len(effs) == 1 && effs[0].Kind == "store.ptr" {
+					if isRegistration(a, cal, 2) {
 						isInit = true
 					}
 				}
